@@ -120,29 +120,41 @@ def build_fuzz():
 
 def run_many(jobs, timeout):
     """jobs: list of (key, argv). Runs up to NCPU at a time. Returns {key: (rc, stdout)};
-    rc None = timed out."""
+    rc None = timed out. Output goes to an unnamed temporary file per job (a pipe that nobody
+    drains would block a chatty child such as libFuzzer once 64 KB are buffered)."""
+    import tempfile
     results = {}
     pending = list(jobs)
     running = []
     deadline = time.time() + timeout
+
+    def collect(f):
+        f.seek(0)
+        data = f.read()
+        f.close()
+        # keep the head and the tail of very long logs
+        if len(data) > 4_000_000:
+            data = data[:1_000_000] + b"\n...[truncated]...\n" + data[-3_000_000:]
+        return data.decode("utf-8", "replace")
+
     while pending or running:
         while pending and len(running) < NCPU:
             key, argv = pending.pop(0)
-            pr = subprocess.Popen(argv, cwd=VERIF, env=ENV, stdout=subprocess.PIPE, stderr=subprocess.STDOUT, text=True)
-            running.append((key, pr))
+            f = tempfile.TemporaryFile()
+            pr = subprocess.Popen(argv, cwd=VERIF, env=ENV, stdout=f, stderr=subprocess.STDOUT)
+            running.append((key, pr, f))
         still = []
-        for key, pr in running:
+        for key, pr, f in running:
             rc = pr.poll()
             if rc is None:
                 if time.time() > deadline:
                     pr.kill()
-                    out = pr.communicate()[0]
-                    results[key] = (None, out)
+                    pr.wait()
+                    results[key] = (None, collect(f))
                 else:
-                    still.append((key, pr))
+                    still.append((key, pr, f))
             else:
-                out = pr.communicate()[0]
-                results[key] = (rc, out)
+                results[key] = (rc, collect(f))
         running = still
         if running:
             time.sleep(0.02)
